@@ -39,28 +39,36 @@ TEXT = {
             "sequences are validated byte by byte against it", "5"),
     "C07": ("Quantizer.tla: TLC checks 'every conversion reports an allowed pitch class' and the forbid-last rule over "
             "all histories of allow/forbid/convert of a bounded instance; recorded histories of the real Quantizer "
-            "(scale mask after every edit, note of every conversion) are validated against Trace_Quantizer.tla", "5"),
+            "(scale mask after every edit, note of every conversion) are validated against Trace_Quantizer.tla; every "
+            "transition of the same actions at the real constants (1/240 V grid, 31 scales; thorough 63) is replayed on the "
+            "real Quantizer", "5 and 12.8"),
     "C08": ("Rule/Accept in Quantizer.tla are the declarative reading of the statement (theorems: monotone, octave "
             "periodic, chromatic = floor, convex acceptance regions, checked by TLC for all scales of the bounded "
             "instance); fresh-quantizer sweeps of the real code are run-length compressed to input intervals per note "
-            "and TLC checks both ends of every interval against Accept (10 microvolt ties)", "5"),
+            "and TLC checks both ends of every interval against Accept (10 microvolt ties); the real-constants graph replay "
+            "compares the note of every transition with the specification's", "5 and 12.8"),
     "C09": ("Convert = window test else Rule; TLC checks stability, freedom, single note change under small noise "
             "(chromatic) and monotonicity over all histories of the bounded instance; ramps, boundary noise, window-edge "
-            "inputs, jumps and scale edits on the real code are validated conversion by conversion", "5"),
+            "inputs, jumps and scale edits on the real code are validated conversion by conversion; every transition, pair of "
+            "transitions and random walks of the real-constants graph (inputs two grid units inside / outside every window "
+            "edge) are replayed on the real Quantizer", "5 and 12.8"),
     "C10": ("Lfo.tla gives the five shapes as exact integer state functions of the phase; the real oscillator's read-outs "
             "(exact integer images, sine as Q24) are validated against them and against a sine reference generated from "
-            "sin(2 pi p); thorough tier reads out all 2^24 phases", "5"),
+            "sin(2 pi p); thorough tier reads out all 2^24 phases; the graph replay of the bounded Lfo.tla compares all five "
+            "shapes at the phase read back after every transition", "5 and 12.8"),
     "C11": ("phase advance, reset, set_phase and the increment realised for a requested frequency (bounds evaluated by the "
             "specification on the exact ideal step logged as floor + 16 fractional bits) are checked on every recorded "
             "call; drift-freedom is an invariant of the bounded model", "5"),
     "C12": ("adjacent read-outs one tick apart are bounded by 2 pi 1.002 * step (sine) and 4 * step (triangle) at every "
-            "recorded pair, incl. every cell border and the wrap with increment 1; thorough: all 2^24 adjacent pairs", "5"),
+            "recorded pair, incl. every cell border and the wrap with increment 1; thorough: all 2^24 adjacent pairs; the "
+            "sine step across every tick transition of the replayed Lfo graph", "5 and 12.8"),
     "C13": ("Glide.tla models the lag as 'move a fixed fraction toward the input'; TLC checks hull, monotone approach, "
             "settling and the dead-band logic over all schedules of a bounded instance; the real filter is validated "
             "sample by sample against an envelope (one-step hull, range, no retreat, no crossing beyond the f32 band)", "5"),
     "C14": ("the dead band / clamps decide the time in effect in the specification; coverage windows (>= 99.5% after t, "
             "40-55% after t/10, fastest settled in 8 samples, > 10 s = 10 s) are evaluated on recorded steps over the "
-            "(fs, t) plane and after chains of nearby set_time calls", "5"),
+            "(fs, t) plane and after chains of nearby set_time calls; every history of up to five set_time calls of the "
+            "dead-band graph is replayed on the real processor and probed against a new processor given the time in effect", "5 and 12.8"),
     "C15": ("Ribbon.tla: press <=> unbroken in-range run of capture length (ghost streak), edges exactly once; TLC on "
             "small and on the real 100/500 Hz configurations, whose complete graphs are replayed on RibbonController; "
             "tap/press/glitch traces at all seven rates are validated poll by poll", "5"),
